@@ -38,8 +38,10 @@ def rw_number(t, rnd):
     def f(m):
         sign, body = m.group(1), m.group(2)
         val = int(body[2:], 16) if body[:2].lower() == "0x" else int(body, 10)
-        k = rnd.randrange(4)
-        if k == 0:
+        k = rnd.randrange(5)
+        if k == 4:
+            s = "0" * rnd.randrange(1, 3) + "%d" % val  # decimal with leading zeros (not octal: nasm reads 010 as ten, too)
+        elif k == 0:
             s = "0x%x" % val
         elif k == 1:
             s = "%d" % val
